@@ -187,7 +187,7 @@ class Exec:
     """Observation record of one execution."""
     __slots__ = ('config', 'policy', 'dev', 'cs', 'error', 'stage_error', 'P0', 'P0_pickle',
                  'T0', 'P1', 'P1_pickle', 'T1', 'P2', 'T2', 'erasure_flags', 'ow_flag', 'ow_msg',
-                 'horizon_hit', 'extra', 'recursion_error', 'context')
+                 'horizon_hit', 'extra', 'recursion_error', 'context', 'frozen_ns')
 
     def __init__(self):
         for s in self.__slots__:
@@ -196,6 +196,32 @@ class Exec:
 
     def trace_len(self):
         return len(self.cs.ns)
+
+
+def oracle_choices(x, policy=None):
+    """Install a separate ChoiceSource for work done by an oracle (reference translations,
+    re-applied mutations): the execution's own trace stays exactly what the pipeline drew."""
+    cs = ChoiceSource(policy or x.policy, None, horizon=200000)
+    install_choice(cs, 0 if isinstance(x.policy, str) else x.policy[1])
+    return cs
+
+
+class oracle_scope:
+    """with oracle_scope(x): ... -- oracle work in the middle of a pipeline run; the
+    pipeline's own ChoiceSource and word stream are restored afterwards."""
+
+    def __init__(self, x):
+        self.x = x
+
+    def __enter__(self):
+        R = _env['utils'].random
+        self.saved = (R.r, R.word, R.reset_word_pool)
+        return oracle_choices(self.x)
+
+    def __exit__(self, *a):
+        R = _env['utils'].random
+        R.r, R.word, R.reset_word_pool = self.saved
+        return False
 
 
 def new_translator(lang, package='src.a'):
